@@ -299,6 +299,17 @@ __wrap_epoll_ctl(int epfd, int op, int fd, struct epoll_event *ev) {
   return __real_epoll_ctl(epfd, op, fd, ev);
 }
 
+/* a socket that libcoap closes (with or without taking it out of the epoll set first) is forgotten here */
+void __real_coap_socket_close(coap_socket_t *sock);
+void
+__wrap_coap_socket_close(coap_socket_t *sock) {
+  int i;
+  for (i = 0; i < SIM_MAX_SOCKS; i++)
+    if (socks[i].used && socks[i].sock == sock)
+      socks[i].used = 0;
+  __real_coap_socket_close(sock);
+}
+
 static int
 deliverable_for(coap_socket_t *sock) {
   int i, best = -1;
